@@ -102,14 +102,41 @@ fn run_suite<S: ShortGroupSignatureScheme>(em: &mut Emitter, base: &mut Rng, sui
             if !em.thorough() && subsets.len() > 7 && si % 2 == 1 {
                 continue;
             }
-            let (hc, kc) = split_claims(&all, &labels, hidden);
+          // the hidden claims with ordinary values, and with the values whose message scalar is zero where the type has one
+          // (number −2^63, scalar 0): the commitment to the hidden messages may then be the identity / carry no message term
+          for values in ["ordinary", "zero-encoded"] {
+            let mut all_v = all.clone();
+            if values == "zero-encoded" {
+                let mut any = false;
+                for (i, l) in labels.iter().enumerate() {
+                    if hidden.iter().any(|h| h == l) {
+                        match &all_v[i] {
+                            ClaimData::Number(_) => {
+                                all_v[i] = NumberClaim::from(isize::MIN).into();
+                                any = true;
+                            }
+                            ClaimData::Scalar(_) => {
+                                all_v[i] = ScalarClaim::from(Scalar::ZERO).into();
+                                any = true;
+                            }
+                            _ => {}
+                        }
+                    }
+                }
+                if !any {
+                    continue;
+                }
+                em.count(&format!("{}:zero-encoded-hidden-values", suite));
+            }
+            let all = &all_v;
+            let (hc, kc) = split_claims(all, &labels, hidden);
             let mut kc = kc;
-            kc.insert("id".into(), RevocationClaim::from(format!("blind-{}-{}", k, si)).into());
+            kc.insert("id".into(), RevocationClaim::from(format!("blind-{}-{}-{}", k, si, values)).into());
             let mut all_i = all.clone();
             all_i[0] = kc["id"].clone();
-            em.oracle_case(&format!("{} flow {} {:?}", suite, k, hidden));
+            em.oracle_case(&format!("{} flow {} {:?} {}", suite, k, hidden, values));
             em.count(&format!("{}:hidden={}", suite, hidden.len()));
-            let replay = json!({"suite": suite, "blindable": blindable, "hidden": hidden, "schema_labels": labels});
+            let replay = json!({"suite": suite, "blindable": blindable, "hidden": hidden, "schema_labels": labels, "values": values, "claims": serde_json::to_value(&all_i).unwrap_or_default()});
             let flow = call(|| {
                 let (req, blinder) = BlindCredentialRequest::<S>::new(&public, &hc)?;
                 let bundle = issuer.blind_sign_credential(&req, &kc)?;
@@ -134,6 +161,7 @@ fn run_suite<S: ShortGroupSignatureScheme>(em: &mut Emitter, base: &mut Rng, sui
                 Out::Err => em.violation("c16:honest-blind-flow-failed", format!("{}: honest blind issuance failed for hidden labels {:?} (schema order {:?})", suite, hidden, labels), replay.clone()),
                 Out::Panic(m) => em.violation("c16:blind-flow-panic", format!("{}: blind issuance panicked for hidden labels {:?}: {}", suite, hidden, m), replay.clone()),
             }
+          }
         }
         // ---- deviating holders, on one subset
         let hidden: Vec<String> = vec![blindable[0].to_string()];
